@@ -514,6 +514,13 @@ func resolutionCases(t *vlib.T) {
 		"pages/sub/x":   "{% include '../part' %}+{% include './y' %}",
 		"pages/sub/y":   "y",
 		"other/deep":    "{% include '../pages/sub/x' %}",
+		"pages/child2":  "{% extends '../layouts/base' %}{% block k %}C({{ parent() }})[{% include './part' %}]{% endblock %}",
+		"deep/grand":    "{% extends '../pages/child2' %}{% block k %}G({{ parent() }})[{% include './part' %}]{% endblock %}",
+		"deep/part":     "deep-part",
+		"deep/keep":     "{% extends '../pages/child2' %}",
+		"pages/m2":      "{% macro a() %}<{{ _self.b() }}>{% endmacro %}{% macro b() %}{% include './part' %}{% endmacro %}",
+		"other/use2":    "{% import '../pages/m2' as l %}{{ l.a() }}|{% include './part' %}",
+		"other/loopm":   "{% from '../pages/m' import mm %}{% for i in [1, 2] %}{{ mm() }}{% include './part' %};{% endfor %}",
 	}
 	type rc struct {
 		name, want string
@@ -528,6 +535,11 @@ func resolutionCases(t *vlib.T) {
 		{"pages/child", "B[pages-part]", "KF-C02-1", "B[layouts-part]"},
 		{"other/use", "pages-part", "KF-C02-2", "other-part"},
 		{"other/from", "pages-part", "KF-C02-2", "other-part"},
+		{"pages/child2", "B[C(layouts-part)[pages-part]]", "", ""},
+		{"deep/grand", "B[G(C(layouts-part)[pages-part])[deep-part]]", "", ""},
+		{"deep/keep", "B[C(layouts-part)[pages-part]]", "", ""},
+		{"other/use2", "<pages-part>|other-part", "", ""},
+		{"other/loopm", "pages-partother-part;pages-partother-part;", "", ""},
 	}
 	// every ordered pair (first render, second render) on one engine: earlier renders must not
 	// influence how a later one resolves its names
